@@ -46,7 +46,10 @@ def value_at(R, env, allow_bind=True):
         if not allow_bind:
             raise
     subs = {k: bind_value(dom_of(d), env[k]) for k, d in R.inputs.items()}
-    G = R(**subs)
+    try:
+        G = R(**subs)
+    except Exception as e:
+        raise Unsupported("binding the result's inputs raised %s" % type(e).__name__)
     if isinstance(G, Number):
         return G.data, "bound"
     if isinstance(G, Tensor) and not G.inputs:
@@ -104,8 +107,8 @@ def compare(R, P, rng=None, max_points=256, nreal=2, rtol=1e-6, check_output=Tru
                             return Verdict("bad", "value-after-binding", "at %s: binding the free inputs gives %s expected %s" % (
                                 short({k: (v.tolist() if isinstance(v, np.ndarray) else v) for k, v in env.items()}, 200),
                                 short(np.asarray(G.data).tolist(), 200), short(np.asarray(expect).tolist(), 200)), points=n)
-                except (NotImplementedError, AssertionError, ValueError, TypeError, KeyError, IndexError):
-                    pass
+                except Exception:
+                    pass  # binding declined
     except Unsupported as e:
         return Verdict("undecided", "oracle-unsupported", str(e), points=n, skipped=skipped)
     except IllTyped as e:
